@@ -175,6 +175,10 @@ func (a *Allocator) TrimTo(max int) {
 		if alloc < max {
 			continue
 		}
+		if i == 0 {
+			// Always keep the first buffer: later buffers are sized relative to it.
+			continue
+		}
 		Free(b)
 		a.buffers[i] = nil
 	}
